@@ -27,11 +27,14 @@ import (
 	"sync/atomic"
 	"time"
 
+	"github.com/nuts-foundation/go-did/vc"
 	"github.com/nuts-foundation/nuts-node/auth"
+	"github.com/nuts-foundation/nuts-node/auth/oauth"
 	"github.com/nuts-foundation/nuts-node/cmd"
 	"github.com/nuts-foundation/nuts-node/core"
 	"github.com/nuts-foundation/nuts-node/http/client"
 	"github.com/nuts-foundation/nuts-node/jsonld"
+	"github.com/nuts-foundation/nuts-node/vcr/pe"
 	"github.com/sirupsen/logrus"
 	"verif/lib/worker"
 )
@@ -103,8 +106,14 @@ func (d defaultTransportRecorder) RoundTrip(req *http.Request) (*http.Response, 
 // every connection of client.SafeHttpTransport is routed (port 443/8443 -> TLS listener, anything else -> plain listener).
 // A request counts as attempted when one of the listeners received it (or, for the plain listener, when a connection to it was dialled).
 func remoteWorld(rec *recorder) {
+	// only connections dialled by the node's own transport count: another process on this machine may connect to these ports by accident
+	var own sync.Map
 	handler := func(scheme string) http.Handler {
 		return http.HandlerFunc(func(w http.ResponseWriter, r *http.Request) {
+			if _, ok := own.Load(r.RemoteAddr); !ok {
+				w.WriteHeader(http.StatusNotFound)
+				return
+			}
 			rec.add(scheme + " " + r.Host + r.URL.Path)
 			host := r.Host
 			if h, _, err := net.SplitHostPort(host); err == nil {
@@ -141,11 +150,17 @@ func remoteWorld(rec *recorder) {
 	client.SafeHttpTransport.Proxy = nil
 	client.SafeHttpTransport.DialContext = func(ctx context.Context, network, addr string) (net.Conn, error) {
 		_, port, _ := net.SplitHostPort(addr)
+		target := plainAddr
 		if port == "443" || port == "8443" {
-			return d.DialContext(ctx, "tcp", secureAddr)
+			target = secureAddr
+		} else {
+			rec.add("dial-plain " + addr)
 		}
-		rec.add("dial-plain " + addr)
-		return d.DialContext(ctx, "tcp", plainAddr)
+		conn, err := d.DialContext(ctx, "tcp", target)
+		if err == nil {
+			own.Store(conn.LocalAddr().String(), true)
+		}
+		return conn, err
 	}
 	client.SafeHttpTransport.TLSClientConfig.InsecureSkipVerify = true // the remote hosts are fakes; certificate validation is not what is observed here
 }
@@ -171,20 +186,23 @@ func nodeWorker(args []string) int {
 
 	var everReachable atomic.Bool
 	statusURL := "http://" + sp.Internal + "/status"
-	dialable := func(addr string) bool {
-		c, err := net.DialTimeout("tcp", addr, 2*time.Second)
-		if err != nil {
-			return false
+	// "a listener accepts traffic" = THIS process holds a listening socket on one of the node's HTTP ports (another process of this
+	// machine may be using a port the node never bound)
+	listening := func(addrs ...string) bool {
+		own := ownListeningPorts()
+		for _, a := range addrs {
+			if _, p, err := net.SplitHostPort(a); err == nil && own[p] {
+				return true
+			}
 		}
-		c.Close()
-		return true
+		return false
 	}
 	// a refused start ends in logrus.Fatal: capture the message and look at the listeners at that very moment
 	var fatalMsg atomic.Value
 	logrus.StandardLogger().AddHook(fatalHook{&fatalMsg})
 	logrus.StandardLogger().ExitFunc = func(code int) {
 		msg, _ := fatalMsg.Load().(string)
-		led.put(ledgerLine{Ev: "fatal", Msg: msg, EverReachable: everReachable.Load(), ListenerAtExit: dialable(sp.Internal) || dialable(sp.Public), Status: code})
+		led.put(ledgerLine{Ev: "fatal", Msg: msg, EverReachable: everReachable.Load(), ListenerAtExit: listening(sp.Internal, sp.Public), Status: code})
 		os.Exit(code)
 	}
 	stopPoll := make(chan struct{})
@@ -199,7 +217,7 @@ func nodeWorker(args []string) int {
 			resp, err := harnessHTTP.Get(statusURL)
 			if err == nil {
 				resp.Body.Close()
-				if resp.StatusCode == 200 {
+				if resp.StatusCode == 200 && listening(sp.Internal) {
 					everReachable.Store(true)
 					close(reachable)
 					return
@@ -224,7 +242,7 @@ func nodeWorker(args []string) int {
 		}
 		led.put(ledgerLine{Ev: "exited", Msg: msg, EverReachable: everReachable.Load()})
 		return 0
-	case <-time.After(90 * time.Second):
+	case <-time.After(45 * time.Second):
 		close(stopPoll)
 		led.put(ledgerLine{Ev: "timeout"})
 		return 4
@@ -365,10 +383,36 @@ func runProbes(led jsonLedger, rec *recorder, sp childSpec, system *core.System)
 			try("iam.ClientMetadata", func() error { _, err := iamClient.ClientMetadata(context.Background(), target); return err })
 			try("iam.PresentationDefinition", func() error { _, err := iamClient.PresentationDefinition(context.Background(), target); return err })
 			try("iam.RequestObjectByGet", func() error { _, err := iamClient.RequestObjectByGet(context.Background(), target); return err })
+			try("iam.RequestObjectByPost", func() error {
+				_, err := iamClient.RequestObjectByPost(context.Background(), target, oauth.AuthorizationServerMetadata{})
+				return err
+			})
+			try("iam.PostError", func() error {
+				_, err := iamClient.PostError(context.Background(), oauth.OAuth2Error{Code: oauth.InvalidRequest}, target, "state")
+				return err
+			})
+			try("iam.PostAuthorizationResponse", func() error {
+				_, err := iamClient.PostAuthorizationResponse(context.Background(), vc.VerifiablePresentation{}, pe.PresentationSubmission{}, target, "state")
+				return err
+			})
+			try("iam.AccessToken", func() error {
+				_, err := iamClient.AccessToken(context.Background(), "code", target, "https://node.zorgverlener.nl/callback", "subject", "https://node.zorgverlener.nl/oauth2/subject", "verifier", false)
+				return err
+			})
+			// no URL validation is documented for this one: observed, judged only for plain HTTP
+			try("iam.VerifiableCredentials", func() error {
+				_, err := iamClient.VerifiableCredentials(context.Background(), target, "token", "proof")
+				return err
+			})
 			if u, err := url.Parse(target); err == nil && !strings.Contains(u.Path, "/r2") {
 				issuer := u.Scheme + "://" + u.Host + "/issuer" + tok
 				try("iam.AuthorizationServerMetadata", func() error {
 					_, err := iamClient.AuthorizationServerMetadata(context.Background(), issuer)
+					return err
+				})
+				try("iam.OpenIDConfiguration", func() error { _, err := iamClient.OpenIDConfiguration(context.Background(), issuer); return err })
+				try("iam.OpenIdCredentialIssuerMetadata", func() error {
+					_, err := iamClient.OpenIdCredentialIssuerMetadata(context.Background(), issuer)
 					return err
 				})
 			}
@@ -388,4 +432,35 @@ func short(s string) string {
 		return s[:300]
 	}
 	return s
+}
+
+// ownListeningPorts returns the TCP ports (decimal strings) on which this process holds a socket in LISTEN state.
+func ownListeningPorts() map[string]bool {
+	inodes := map[string]bool{}
+	fds, _ := os.ReadDir("/proc/self/fd")
+	for _, fd := range fds {
+		if target, err := os.Readlink("/proc/self/fd/" + fd.Name()); err == nil && strings.HasPrefix(target, "socket:[") {
+			inodes[strings.TrimSuffix(strings.TrimPrefix(target, "socket:["), "]")] = true
+		}
+	}
+	ports := map[string]bool{}
+	for _, f := range []string{"/proc/self/net/tcp", "/proc/self/net/tcp6"} {
+		data, err := os.ReadFile(f)
+		if err != nil {
+			continue
+		}
+		for _, ln := range strings.Split(string(data), "\n")[1:] {
+			fields := strings.Fields(ln)
+			if len(fields) < 10 || fields[3] != "0A" || !inodes[fields[9]] {
+				continue
+			}
+			if i := strings.LastIndex(fields[1], ":"); i >= 0 {
+				var port int
+				if _, err := fmt.Sscanf(fields[1][i+1:], "%X", &port); err == nil {
+					ports[fmt.Sprint(port)] = true
+				}
+			}
+		}
+	}
+	return ports
 }
